@@ -1,7 +1,9 @@
 (* Diff.v — executable model of /repo/internal/ztest/diff.go (Diff with no options):
    findLongestMatch, matchingBlocks, GetOpCodes, GetGroupedOpCodes, formatRangeUnified,
    makeUnifiedDiff, splitLines, ASCII TrimSpace, Diff; plus the specification-level
-   predicates of C20 (patch applier, header counts, context bound, output parser).
+   predicates of C20 (patch applier, header counts, context bound, output parser) and the
+   contracts of the inner functions as decidable predicates (flm_okb, flm_maxb, flm_firstb,
+   blocks_okb, tiles_okb) — these are what the driver evaluates on the implementation's output.
    Definitions only: the proofs live in DiffProofs.v so that the model still runs
    (and is extracted) if a proof breaks.  Stdlib only. *)
 From Coq Require Import List Arith Bool String Ascii DecimalString.
@@ -337,6 +339,16 @@ Section Seq.
               (seq blo (bhi - blo)))
             (seq alo (ahi - alo)).
 
+  (* ... and of the longest runs it is the one that starts earliest in a, then earliest in b;
+     (alo, blo, 0) when nothing matches *)
+  Definition flm_firstb (a b : list T) (alo ahi blo bhi : nat) (m : mtch) : bool :=
+    if mSize m =? 0 then (mA m =? alo) && (mB m =? blo) else
+    forallb (fun i =>
+      forallb (fun j => negb (mSize m <=? common_len (sub a i (ahi - i)) (sub b j (bhi - j)))
+                        || (mA m <? i) || ((mA m =? i) && (mB m <=? j)))
+              (seq blo (bhi - blo)))
+            (seq alo (ahi - alo)).
+
   (* matchingBlocks (with the sentinel): non-empty equal slices in increasing order, then (|a|,|b|,0) *)
   Fixpoint blocks_okb (a b : list T) (alo blo : nat) (l : list mtch) : bool :=
     match l with
@@ -395,6 +407,7 @@ Arguments hunk_of_group {T}.
 Arguments code_lines {T}.
 Arguments flm_okb {T}.
 Arguments flm_maxb {T}.
+Arguments flm_firstb {T}.
 Arguments common_len {T}.
 Arguments blocks_okb {T}.
 Arguments op_okb {T}.
